@@ -86,6 +86,7 @@ def make_backend_class():
             self.hooks = []            # callables(event) for controllers
             self.aborts = 0
             self.on_batch_completed = None   # optional callable(backend, batch_size), may block (scheduling by the check)
+            self.virtual_duration = None   # optional callable(batch_size, real_duration) -> the duration reported to the auto-batching heuristic
             self.during_abort = None   # optional callable(backend) run once at the start of the next abort_everything
             self.parallel = None
             self.errors = []
@@ -108,6 +109,8 @@ def make_backend_class():
             hook = self.on_batch_completed
             if hook is not None:
                 hook(self, batch_size)
+            if self.virtual_duration is not None:
+                duration = self.virtual_duration(batch_size, duration)
             return super().batch_completed(batch_size, duration)
 
         def compute_batch_size(self):
